@@ -288,7 +288,8 @@ def format_file(filename: Path, preserve: Collection[str] = frozenset(), safe: b
     source = format_code(initial_content, preserve=preserve, safe=safe, keep_imports=keep_imports)
 
     if source != initial_content and (
-        core.is_valid_python(source) or not core.is_valid_python(initial_content)
+        core.is_still_valid_python(initial_content, source)
+        or not core.is_valid_python(initial_content)
     ):
         with open(filename, "w", encoding="utf-8") as stream:
             stream.write(source)
